@@ -6,6 +6,7 @@ import (
 	"image"
 	"image/jpeg"
 	"image/png"
+	"strings"
 
 	"golang.org/x/image/webp"
 
@@ -123,6 +124,9 @@ func StdConfig(format string, b []byte) (image.Config, error) {
 func selfCheck(st *Stats, f *refmodel.File, data []byte, mustAccept bool) {
 	cfg, err := StdConfig(f.Truth.Format, data)
 	st.Probe("std_decoder_accepted", err == nil)
+	if f.Truth.Format == "JPEG" {
+		st.Probe("jpeg_fill_bytes_before_a_marker", strings.Contains(f.Truth.Desc, "fill+"))
+	}
 	if err != nil {
 		if mustAccept {
 			panic(&core.HarnessError{Msg: fmt.Sprintf("generator self-check: %s rejects a file the generator must get right: %v (%s)", f.Truth.Format, err, f.Truth.Desc)})
